@@ -14,6 +14,7 @@ import (
 	"github.com/ipni/go-libipni/announce/p2psender"
 	"github.com/libp2p/go-libp2p"
 	pubsub "github.com/libp2p/go-libp2p-pubsub"
+	"github.com/libp2p/go-libp2p/core/crypto"
 	"github.com/libp2p/go-libp2p/core/host"
 	"github.com/libp2p/go-libp2p/core/peer"
 	"github.com/multiformats/go-multiaddr"
@@ -156,6 +157,9 @@ func (c *ctx) pubsubRound(r *vlib.Rand, round int) {
 	for i := 1; i <= 12; i++ {
 		e.peerNo[recvdrv.Peer(i)] = i
 	}
+	for n := 21; n <= 24; n++ { // publishers with Ed25519, secp256k1, ECDSA and RSA identities
+		e.peerNo[keyTypePeers()[n]] = n
+	}
 	e.filterB = round%2 == 0
 	e.filterR = round%3 == 1
 	// B allows the publisher host and the odd origin peers; the relay is NOT allowed as a
@@ -165,6 +169,10 @@ func (c *ctx) pubsubRound(r *vlib.Rand, round int) {
 	for i := 1; i <= 12; i += 2 {
 		e.allowB[i] = true
 		allowList = append(allowList, fmt.Sprint(i))
+	}
+	for n := 21; n <= 24; n++ {
+		e.allowB[n] = true
+		allowList = append(allowList, fmt.Sprint(n))
 	}
 	if round%4 == 3 {
 		e.allowB = nil
@@ -429,6 +437,31 @@ func (c *ctx) pubsubRound(r *vlib.Rand, round int) {
 	}
 	_ = usedMsgs
 
+	// republications whose original publisher has an Ed25519 / secp256k1 / ECDSA / RSA identity
+	// (their peer ID strings have 52, 53, 46 and 46 characters)
+	for n := 21; n <= 24; n++ {
+		id := keyTypePeers()[n]
+		cidNo, x := fresh()
+		e.log = append(e.log, fmt.Sprintf("R.Direct %d by key-type peer %d (%d-character ID)", cidNo, n, len(id.String())))
+		dctx, dcancel := context.WithTimeout(ctx, wait)
+		err := e.R.Direct(dctx, x, peer.AddrInfo{ID: id})
+		dcancel()
+		if err != nil {
+			fail("relay:direct-error", err.Error())
+			break
+		}
+		refR.update(cidNo)
+		e.histR = append(e.histR, fmt.Sprintf("(PDirect %s false, RNil)", coqAnnP(cidNo, n, nil)))
+		if a, err := nextAnn(e.R, wait); err == nil {
+			gc, gp, ga := e.annOf(a, cids)
+			e.histR = append(e.histR, fmt.Sprintf("(PNext false, RAnn %s)", coqAnnP(gc, gp, ga)))
+		}
+		e.histR = append(e.histR, fmt.Sprintf("(%s, RNil)", coqPMsg(idR, fmt.Sprintf("(OPeer %d)", n), cidNo, nil)))
+		c.Count(fmt.Sprintf("pubsub:republication-origin-id-length-%d", len(id.String())))
+		expectB(fmt.Sprintf("republication-origin-with-%d-character-id", len(id.String())), idR, fmt.Sprintf("(OPeer %d)", n), cidNo, n, nil)
+		c.Eval()
+	}
+
 	// a republished (4-field) announce followed by plain (3-field) ones from the relay's own
 	// host and from the receiver's own host: each is attributed to its real sender, whatever
 	// OrigPeer the message before it carried
@@ -629,4 +662,34 @@ func (c *ctx) pubsubRound(r *vlib.Rand, round int) {
 	if round == 0 {
 		c.Sample(map[string]interface{}{"kind": "pubsub-round", "steps": e.log})
 	}
+}
+
+var keyPeers map[int]peer.ID
+
+// keyTypePeers: peer IDs 21..24 with Ed25519, secp256k1, ECDSA and RSA keys
+func keyTypePeers() map[int]peer.ID {
+	if keyPeers != nil {
+		return keyPeers
+	}
+	keyPeers = map[int]peer.ID{}
+	rd := detReader{vlib.NewRand(20260102)}
+	for i, kt := range []int{crypto.Ed25519, crypto.Secp256k1, crypto.ECDSA, crypto.RSA} {
+		_, pub, err := crypto.GenerateKeyPairWithReader(kt, 2048, rd)
+		if err != nil {
+			panic(err)
+		}
+		id, err := peer.IDFromPublicKey(pub)
+		if err != nil {
+			panic(err)
+		}
+		keyPeers[21+i] = id
+	}
+	return keyPeers
+}
+
+type detReader struct{ r *vlib.Rand }
+
+func (d detReader) Read(b []byte) (int, error) {
+	copy(b, d.r.Bytes(len(b)))
+	return len(b), nil
 }
